@@ -187,7 +187,7 @@ pub fn record(args: &[String]) -> i32 {
         };
         let text = concretise_src(rec["text"].as_str().unwrap());
         let stdin: Vec<u8> = rec.get("inp").and_then(|x| x.as_array()).map_or(Vec::new(), |a| {
-            a.iter().flat_map(|c| c.as_str().unwrap().as_bytes().to_vec()).collect()
+            a.iter().flat_map(|c| crate::jv::concretise(c.as_str().unwrap()).into_bytes()).collect()
         });
         std::fs::write(&file, &text).unwrap();
         // process-level I/O behaviour of `exec`
